@@ -331,11 +331,11 @@ class Crazyflie():
         """Remove the callback cb on port and channel"""
         self.incoming.remove_header_callback(cb, port, channel, port_mask, channel_mask)
 
-    def _no_answer_do_retry(self, pk, pattern, timeout=0.2):
+    def _no_answer_do_retry(self, pk, pattern, timeout=0.2, link=None):
         """Resend packets that we have not gotten answers to"""
         logger.info('Resending for pattern %s', pattern)
         # Set the timer to None before trying to send again
-        self.send_packet(pk, expected_reply=pattern, resend=True, timeout=timeout)
+        self.send_packet(pk, expected_reply=pattern, resend=True, timeout=timeout, _sent_on=link)
 
     def _check_for_answers(self, pk):
         """
@@ -363,7 +363,7 @@ class Crazyflie():
             for timer in list(timers.values()):
                 timer.cancel()
 
-    def send_packet(self, pk, expected_reply=(), resend=False, timeout=0.2):
+    def send_packet(self, pk, expected_reply=(), resend=False, timeout=0.2, _sent_on=None):
         """
         Send a packet through the link interface.
 
@@ -371,6 +371,8 @@ class Crazyflie():
         @param expect_answer True if a packet from the Crazyflie is expected to
                              be sent back, otherwise false
 
+        _sent_on is used internally by the retry timers: the link the packet
+        was sent on, it is never resent on another one.
         """
 
         if not pk.is_data_size_valid():
@@ -389,7 +391,8 @@ class Crazyflie():
                     new_timer = Timer(timeout,
                                       lambda: self._no_answer_do_retry(pk,
                                                                        pattern,
-                                                                       timeout))
+                                                                       timeout,
+                                                                       link))
                     with self._answer_patterns_lock:
                         timers = self._answer_patterns.setdefault(pattern, {})
                         old_timer = timers.get(pk)
@@ -403,10 +406,19 @@ class Crazyflie():
                     new_timer = Timer(timeout,
                                       lambda:
                                       self._no_answer_do_retry(
-                                          pk, pattern, timeout))
+                                          pk, pattern, timeout, link))
                     with self._answer_patterns_lock:
                         timers = self._answer_patterns.get(pattern)
                         still_pending = timers is not None and pk in timers
+                        if still_pending and _sent_on is not None and \
+                                link is not _sent_on:
+                            # The request was registered while its link was
+                            # being closed and has survived into the next
+                            # connection: forget it
+                            del timers[pk]
+                            if not timers:
+                                del self._answer_patterns[pattern]
+                            still_pending = False
                         if still_pending:
                             timers[pk] = new_timer
                     if still_pending:
